@@ -399,8 +399,17 @@ pub fn run(cli: Cli) -> ! {
         rep.set("traces_validated_against_impl", json!(1));
         rep.finish();
     }
+    core(&rep, cli.tier.thorough());
+    rep.finish()
+}
+
+/// The sweep over the virtual transport (everything but the replay of one case). netsim's C02 runs it and adds
+/// histories of connections through the real Listener (the address a cookie is bound to is the one the listener
+/// hands to the connection).
+pub fn core(rep: &Report, thorough: bool) {
+    let retries = AtomicU64::new(0);
     let sample_cookie = valid_cookie(b"c02-secret", 5, CLIENT, CK_NAME, CK_UUID, &ck_props());
-    let all = specs(sample_cookie.len(), cli.tier.thorough());
+    let all = specs(sample_cookie.len(), thorough);
     for s in [&all[0], &all[all.len() - 1]] {
         assert_deterministic(&build(s, wall_secs()).0, "C02");
     }
@@ -443,5 +452,4 @@ pub fn run(cli: Cli) -> ! {
     rep.assume("wall clock: each boundary case is repeated if the second ticked between building the cookie and the end of the (sub-millisecond) run");
     rep.assume("'any IP' is six representative addresses; multi-bit forgeries are the HMAC construction's domain");
     rep.assume("objects with a missing optional field or an unknown field are run for robustness only (no panic, nothing granted without a valid cookie or the service)");
-    rep.finish()
 }
